@@ -535,6 +535,12 @@ inductive Shape where
   | unreadable
   deriving Repr, Inhabited
 
+def Shape.show : Shape → String
+  | .simple p c => s!"simple glyph, {p} points in {c} contours"
+  | .composite n => s!"composite of {n} components"
+  | .empty => "empty glyph"
+  | .unreadable => "unreadable glyph"
+
 def parseShapes (fs : Sexp) : Option (List Shape) := do
   (← fs.field1? "shapes").mapM? fun g =>
     match g with
@@ -595,9 +601,9 @@ def handleBig : Handler := fun s =>
           let res : Check := firstBad [
             if numGlyphs == nglyphs + 1 then {} else bad "numglyphs-wrapped" s!"maxp.numGlyphs {numGlyphs} vs {nglyphs + 1} glyphs",
             if shapeOk (shapes.getD 1 .unreadable) wantA then {} else
-              bad "numpoints-wrapped" s!"glyph a: font has {repr (shapes.getD 1 .unreadable)}, source {repr wantA}",
+              bad "numpoints-wrapped" s!"glyph a: font has a {(shapes.getD 1 .unreadable).show}, source: {wantA.show}",
             if shapeOk (shapes.getD 2 .unreadable) wantB then {} else
-              bad "numcomponents-wrapped" s!"glyph b: font has {repr (shapes.getD 2 .unreadable)}, source {repr wantB}",
+              bad "numcomponents-wrapped" s!"glyph b: font has a {(shapes.getD 2 .unreadable).show}, source: {wantB.show}",
             if maxPoints == maxPts ∧ maxContours == maxCts then {} else
               bad "maxp-wrapped" s!"maxp.maxPoints/maxContours {maxPoints}/{maxContours} vs true {maxPts}/{maxCts}",
             if gb.comps > 0 ∧ ga.comps == 0 ∧ (maxCompPoints != gb.comps * ga.points ∨ maxCompContours != gb.comps * ga.contours) then
